@@ -2,7 +2,7 @@
 
 C02.class   per implemented form and flag: definitely written / constant / untouched as the
             architecture says (iced rflags tables), joined over all success paths and shapes
-C02.count   shift forms: the flag-neutral early-out tests the *masked* count
+C02.count   shift forms, all 256 counts: flags untouched iff the architecturally masked count is 0
 C02.reads   the rflags bits a handler's control flow or results depend on are within iced's rflags_read
 C02.setter  transfer function of the flag setters derived from their own MIR for every mask pair in use
 """
@@ -197,24 +197,6 @@ def run(ctx):
         if len(ck.samples) < 6 and any_written:
             ck.sample({"rule": "C02.class", "instance": inst, "joined": {k: sorted(v) for k, v in joined.items()},
                        "architecture": {fl: expected(exp_inst, fl) for fl in FL.ARCH_FLAGS}})
-        # ---- shift early-outs
-        if is_shift:
-            width = oc["opsize"] if oc["opsize"] else 8
-            cmask = 0x3F if width == 64 else 0x1F
-            if not earlyouts:
-                ck.violation("C02.count", inst, "no flag-neutral path for a masked count of zero", where=where)
-            for label, o in earlyouts:
-                g = early_guard(o)
-                if g is None:
-                    ck.violation("C02.count", inst + "/" + label, "flag-neutral path without a count==0 guard", where=where)
-                elif g != cmask:
-                    ck.violation("C02.count", inst + "/" + label,
-                                 "early-out tests count&%#x==0, architecture masks with %#x" % (g, cmask), where=where,
-                                 what="masked shift count of zero (count!=0) is not flag-neutral")
-                else:
-                    ck.ok("C02.count", inst + "/" + label)
-        elif earlyouts:
-            pass
         # ---- reads
         allowed = set()
         rr = exp_inst["rflags_read"]
@@ -227,6 +209,19 @@ def run(ctx):
                          witness={"depends_on_bits": sorted(reads), "architecture_reads_bits": sorted(allowed)})
         else:
             ck.ok("C02.reads", inst)
+    # ---- shift counts (exhaustive sweep shared with C01/C06)
+    from .. import shiftsweep as SS
+    res = SS.sweep(ctx)
+    for form, r in sorted(res["forms"].items()):
+        where = U.handler_where(facts, D, form.split("/")[0])
+        if r["flags"]:
+            for desc, cs in sorted(r["flags"].items()):
+                ck.violation("C02.count", "Code=" + form, "%s: counts %s" % (desc, SS.compress(cs)), where=where,
+                             witness={"counts": cs, "count_mask": hex(r["mask"])},
+                             what="flag handling for masked shift counts deviates from the architecture")
+        else:
+            ck.ok("C02.count", "Code=" + form, 256)
+    ck.cov["shift_count_evaluations"] = res["evaluations"]
     # setter table
     for (setter, sm, cm), s in sorted(ss.cache.items()):
         inst = "setter=u%d set=%#x clear=%#x" % (ctx.roles.flag_setters[setter], sm, cm)
